@@ -45,6 +45,8 @@ type Exec struct {
 	globals      map[string]Val
 	assumeFalseAtExit bool
 	known     []*KnownFinding
+	arrOf     map[string]string // heap array version -> array name
+	closedIface map[string]bool
 	topFrame  *Frame
 	entryRegs map[ssa.Value]Val
 }
@@ -79,7 +81,7 @@ func (x *Exec) abort(format string, args ...any) {
 func NewExec(prog *Program, specs *Specs, fn *ssa.Function, c *Contract) *Exec {
 	bv := c != nil && c.Mode == "bv"
 	x := &Exec{prog: prog, specs: specs, enc: NewEnc(bv), unit: fn, contract: c, heapSorts: map[string]Sort{}, maxPaths: 4000,
-		aborted: map[string]int{}, clauseUsed: map[*Clause]int{}, oblLabels: map[ssa.Instruction]string{}, labelCount: map[string]int{}, globals: map[string]Val{}}
+		aborted: map[string]int{}, clauseUsed: map[*Clause]int{}, oblLabels: map[ssa.Instruction]string{}, labelCount: map[string]int{}, globals: map[string]Val{}, arrOf: map[string]string{}, closedIface: map[string]bool{}}
 	if c != nil {
 		x.tmode = c.Tmode
 	}
@@ -520,6 +522,8 @@ func (x *Exec) enterBlock(fr *Frame, st *State, b, pred *ssa.BasicBlock, k Cont)
 			// back edge: invariant must be re-established, variant must decrease; path ends
 			x.bindPhis(fr, st, b, pred)
 			x.checkLoopInv(fr, st, li, "inv-step")
+			x.checkLoopLocks(fr, st, li)
+			x.checkLoopFrame(fr, st, li)
 			x.checkVariant(fr, st, li)
 			x.finish(st, "loopback")
 			return
@@ -794,6 +798,10 @@ func (x *Exec) step(fr *Frame, st *State, in ssa.Instruction) {
 		st.regs[t] = Val{K: VSlice, Parts: []Val{TV(r), TV(IntLit(0)), TV(ln), TV(cp)}, Typ: t.Type()}
 	case *ssa.MakeInterface:
 		v := x.val(st, t.X)
+		if isClosedIface(t.Type()) && v.K == VTerm && v.T.Sort == SRef {
+			// global typing invariant of closed-world interfaces: no typed nil pointers
+			x.safety(fr, st, t, "typed-nil", Not(Eq(v.T, TNull)))
+		}
 		st.regs[t] = Val{K: VTerm, T: x.makeIface(st, v, t.X.Type()), Typ: t.Type()}
 	case *ssa.ChangeInterface:
 		v := x.val(st, t.X)
